@@ -210,8 +210,9 @@ func (ft *FuncTr) assert(at *Term, goal *Term, kind, detail, clause string, pos 
 		// lock-discipline-only function: other goals are not claimed (and are not assumed either)
 		return
 	}
-	if ft.abstract && strings.HasPrefix(kind, "safety.") {
-		// abstracted function: absence of panics is not claimed (the heap is unknown after abstracted calls)
+	if ft.abstract && (strings.HasPrefix(kind, "safety.") || (kind == "call.requires" && !strings.Contains(clause, "lockstate(") && !strings.Contains(clause, "held("))) {
+		// abstracted function: absence of panics and callee preconditions other than the lock discipline are not
+		// claimed (the heap is unknown after abstracted calls); the function's own ensures / asserts are
 		ft.assume(at, goal)
 		return
 	}
